@@ -64,7 +64,9 @@ def urls_from_text(string):
         ):
             url = url[:-1]
 
-        if markdown_target and not URL_WITH_PROTOCOL_RE.match(url):
+        # NOTE: trimming can leave something that is not an url anymore
+        # (e.g. "http://a.b" from "http://a.b…"), also in a markdown target
+        if not URL_WITH_PROTOCOL_RE.match(url):
             continue
 
         yield url
